@@ -218,6 +218,40 @@ def sim_collect(rep, prop, tier, rng, seed, gen_kwargs_list, n_quick, n_thorough
         pr = [p for p in tr.run(settle_from=None) if p["prop"] in oracle_props]
         if pr and not oracle_fail:
             oracle_fail.append(dict(script_name=f["script_name"] + "-shrunk", problem=pr[0], script=f["shrunk"]))
+        if not oracle_fail and not pr:
+            # amplify: a divergence is often latent state (bookkeeping) that only shows when nothing changes any more.
+            # Continue the diverging prefix (original and shrunk) quietly - everything still in flight lost or delivered -
+            # and let the oracles judge the settled state.
+            nclients = 1
+            for tok in f["script"][0].split():
+                if tok.startswith("nclients="):
+                    nclients = int(tok.split("=")[1])
+            proto = "auth=proto" in f["script"][0]
+            div_at = f["divergence"]["step_index"] if isinstance(f.get("divergence"), dict) and "step_index" in f["divergence"] else len(f["script"])
+            cands = []
+            for base in (f["script"][:div_at + 1], f["shrunk"]):
+                connected = []
+                for c_ in range(nclients):
+                    last = None
+                    for l_ in base:
+                        t_ = l_.split()
+                        if t_[0] in ("connect", "disconnect") and int(t_[1]) == c_:
+                            last = t_[0]
+                        if t_[0] == "stop":
+                            last = None
+                    if last == "connect":
+                        connected.append(c_)
+                meta_ = dict(connected=connected, events="ev " in " ".join(base), proto=proto)
+                for lose in (True, False):
+                    mid = ["drop %d s2c 1 all" % c_ for c_ in connected] if lose else []
+                    mid += ["sframe 1 16"] * 2
+                    cands.append((base + mid, len(base + mid)))
+            for body_, sf_ in cands:
+                r2 = run_batch([body_ + gen_scripts.settle_lines(meta_)])[0]
+                pr2 = [p for p in simoracle.Trace(r2[0], r2.raw).run(settle_from=sf_) if p["prop"] in oracle_props]
+                if pr2:
+                    oracle_fail.append(dict(script_name=f["script_name"] + "-amplified", problem=pr2[0], script=body_ + gen_scripts.settle_lines(meta_), shrunk_settle_from=sf_))
+                    break
 
     # known findings of this property: replay witnesses
     kf = load_known()
